@@ -958,6 +958,13 @@ class BlockBase(Base):
                 and hasattr(start_stmt, "get_name")
             ):
                 if end_stmt.get_name() is not None:
+                    if start_stmt.get_name() is None:
+                        # e.g. "BLOCK DATA" closed by "END BLOCK DATA name"
+                        raise FortranSyntaxError(
+                            reader,
+                            f"Name '{end_stmt.get_name()}' has no corresponding "
+                            f"starting name",
+                        )
                     if (
                         start_stmt.get_name().string.lower()
                         != end_stmt.get_name().string.lower()
